@@ -316,3 +316,45 @@ func H_C06_two_callers() {
 		cover("ordered")
 	}
 }
+
+// H_C06_two_creates: two runtime goroutines create containers "ca" and "cb" concurrently; both plugins answer
+// with an annotation naming the container of the request they were shown. Whatever the interleaving
+// (preemption bound 2, handlers contain a scheduling point), each caller gets the result computed from its
+// own request and the responses to it only: both plugins' annotations, naming its own container.
+//verif:property C06
+//verif:preempt 2
+//verif:expect-cover done
+func H_C06_two_creates() {
+	r, w, eps := newEnvAdaptation([]string{"00", "05"}, []EventMask{ValidEvents, ValidEvents})
+	w.yield = &sync.Mutex{}
+	for i := range eps {
+		key := "from-plugin-" + itoa(i)
+		eps[i].adjustFn = func(req *CreateContainerRequest) *ContainerAdjustment {
+			return &ContainerAdjustment{Annotations: map[string]string{key: req.Container.Id}}
+		}
+	}
+	ids := [2]string{"ca", "cb"}
+	var rsp [2]*CreateContainerResponse
+	var errs [2]error
+	var wg sync.WaitGroup
+	wg.Add(2)
+	for i := 0; i < 2; i++ {
+		i := i
+		go func() {
+			rsp[i], errs[i] = r.CreateContainer(context.Background(), &CreateContainerRequest{Pod: &PodSandbox{}, Container: &Container{Id: ids[i]}})
+			wg.Done()
+		}()
+	}
+	wg.Wait()
+	for i := 0; i < 2; i++ {
+		vassert(errs[i] == nil && rsp[i] != nil && rsp[i].Adjust != nil, "request-error")
+		if errs[i] != nil || rsp[i] == nil || rsp[i].Adjust == nil {
+			return
+		}
+		a := rsp[i].Adjust.Annotations
+		vassert(len(a) == 2, "result-mixes-responses-to-another-request")
+		vassert(a["from-plugin-a"] == ids[i] && a["from-plugin-b"] == ids[i], "caller-got-a-result-computed-from-another-request")
+	}
+	vassert(w.maxIn <= 1, "requests-overlap-inside-plugin-handlers")
+	cover("done")
+}
